@@ -36,6 +36,7 @@ fn streams() -> Vec<(&'static str, GenFn, EvalFn)> {
         ("hier", s_hier::gen_hier, s_hier::eval_hier),
         ("scope", s_hier::gen_scope, s_hier::eval_scope),
         ("rules", s_rules::gen, s_rules::eval),
+        ("sdpartial", s_rules::gen_sdpartial, s_rules::eval_sdpartial),
         ("inj", s_inj::gen, s_inj::eval),
         ("ofint", s_inj::gen_ofint, s_inj::eval_ofint),
         ("injbase", s_inj::gen_base, s_inj::eval_base),
